@@ -98,12 +98,13 @@ Print Assumptions C09_param_type_offset.
 
 (* the dimensions of a C array: through the blob the compiler writes (Model/C06K.blob_carray, tied to the API's reports in C06)
    and the two accessors recognised in gitypeinfo.c, the API reports the length index the GIR gives, and the fixed size the GIR
-   gives EXCEPT for an array that also has a length (known finding C09-K1: the blob has one dimension) - never anything else;
+   gives EXCEPT for an array that also has a length (known finding C09-K1: the blob has one dimension) and modulo 2^16 (the
+   dimension is a guint16; a fixed size of 65536 or more is stored wrapped, known finding C09-K2) - never anything else;
    before fix b101e79 it reported the length index as the fixed size of such an array *)
 From GIV.Model Require Import C06K.
 Theorem C09_array_dimensions : forall a,
-  api_dims true a = ((if ka_has_len a then Z.of_N (ka_len a) else -1)%Z,
-                     (if ka_has_size a && negb (ka_has_len a) then Z.of_N (ka_size a) else -1)%Z).
+  api_dims true a = ((if ka_has_len a then Z.of_N (ka_len a mod 65536) else -1)%Z,
+                     (if ka_has_size a && negb (ka_has_len a) then Z.of_N (ka_size a mod 65536) else -1)%Z).
 Proof. exact array_dimensions. Qed.
 Print Assumptions C09_array_dimensions.
 
@@ -111,3 +112,9 @@ Theorem C09_array_dimensions_refuted_before_fix : exists a,
   ka_has_len a = true /\ ka_has_size a = true /\ snd (api_dims false a) = Z.of_N (ka_len a) /\ ka_len a <> ka_size a.
 Proof. exact array_dimensions_refuted_before_fix. Qed.
 Print Assumptions C09_array_dimensions_refuted_before_fix.
+
+Theorem C09_array_dimensions_exact : forall a, (ka_len a < 65536)%N -> (ka_size a < 65536)%N ->
+  api_dims true a = ((if ka_has_len a then Z.of_N (ka_len a) else -1)%Z,
+                     (if ka_has_size a && negb (ka_has_len a) then Z.of_N (ka_size a) else -1)%Z).
+Proof. exact array_dimensions_exact. Qed.
+Print Assumptions C09_array_dimensions_exact.
